@@ -23,10 +23,12 @@ import (
 type DialPlan int
 
 const (
-	Connect   DialPlan = iota // connect to the listener registered for the address (refuse if none)
-	Refuse                    // ECONNREFUSED
-	Blackhole                 // no answer: fails when the context ends or DialTimeout elapses
-	Slow                      // as Connect, but the connection is established only after SlowDial of (virtual) time
+	Connect          DialPlan = iota // connect to the listener registered for the address (refuse if none)
+	Refuse                           // ECONNREFUSED
+	Blackhole                        // no answer: fails when the context ends or DialTimeout elapses
+	Slow                             // as Connect, but the connection is established only after SlowDial of (virtual) time
+	RefuseOnce                       // the first dial to the address is refused (ECONNREFUSED), later ones connect
+	ResetAfterAccept                 // the connection is established and reset by the far side at once: the first write fails
 )
 
 type DialEvent struct {
@@ -212,6 +214,10 @@ func (n *Net) DialConn(ctx context.Context, network, addr, from string) (*Conn, 
 		n.logDial(from, key, "canceled")
 		return nil, opErr(errors.New("operation was canceled"))
 	}
+	if plan == RefuseOnce {
+		n.Plan[key] = Connect
+		plan = Refuse
+	}
 	if plan == Refuse || l == nil || l.isClosed() {
 		n.logDial(from, key, "refused")
 		return nil, opErr(&os.SyscallError{Syscall: "connect", Err: syscall.ECONNREFUSED})
@@ -223,6 +229,13 @@ func (n *Net) DialConn(ctx context.Context, network, addr, from string) (*Conn, 
 	}
 	laddr := &net.TCPAddr{IP: n.ipOf(lhost), Port: n.nextPort}
 	a, b := n.pair(laddr, l.addr, fmt.Sprintf("%s->%s", lhost, key))
+	if plan == ResetAfterAccept {
+		n.logDial(from, key, "connected")
+		n.mu.Unlock()
+		b.Abort()
+		n.mu.Lock()
+		return a, nil
+	}
 	l.mu.Lock()
 	l.q = append(l.q, b)
 	l.accepted++
@@ -368,6 +381,10 @@ func (c *Conn) Read(p []byte) (int, error) {
 		}
 		if c.rst {
 			return 0, c.opErr("read", &os.SyscallError{Syscall: "read", Err: syscall.ECONNRESET})
+		}
+		// (as with real sockets, an expired read deadline fails the call even when data is waiting)
+		if !c.rdl.IsZero() && !time.Now().Before(c.rdl) {
+			return 0, c.opErr("read", os.ErrDeadlineExceeded)
 		}
 		if c.paused {
 			// the application at this end is not reading (SetPaused): data stays queued
